@@ -6,7 +6,8 @@ export GOFLAGS=-mod=mod GOPROXY=off GOSUMDB=off GOTOOLCHAIN=local CGO_ENABLED=1
 cp /repo/go.sum go.sum
 mkdir -p ../build
 # the real server binary, from the working tree
-( cd /repo && go build -o /verif/build/redka-server ./cmd/redka )
+OUT="$(cd .. && pwd)/build"
+( cd /repo && go build -o "$OUT/redka-server" ./cmd/redka )
 for c in cmd/*; do
   go build -tags verif -o ../build/$(basename $c) ./$c
 done
